@@ -126,7 +126,10 @@ def compare(code, spec):
     # a test over the parameters and the events' results alone is behaviour the specification
     # would have to mention: that stays a witness.  A test that involves a value the code's own
     # loop carries ('name@L<line>': widened at the loop head) is bookkeeping of another loop form
-    if not any('@L' in l for l in foreign):
+    # (a counter compared with a bound; a loop-carried flag tested for truth carries what the
+    # events returned and stays a witness)
+    cmp_ops = (' < ', ' <= ', ' == ', ' != ', ' > ', ' >= ')
+    if not any('@L' in l and any(o in l for o in cmp_ops) for l in foreign):
         foreign = []
     diff = equivalent(code, spec)
     if diff is None:
